@@ -81,7 +81,14 @@ def rIterAppend (x : Str) (q : Quals) : Quals :=
   let n := q.length
   (q.zipIdx).map fun (kv, i) => (kv.1, kv.2 ++ x ++ natToStr (n - 1 - i))
 
-def knownKey (n : Nat) : Str := knownKeys.getD n []
+/-- user-defined `KnownQualifierKey`s of the harness (typed indices 7, 8, 9): a valid key with upper-case letters, a
+mixed-case spelling of a key the library knows, an invalid key -/
+def customKeys : List Str :=
+  [['A', 'r', 'c', 'h'], ['R', 'e', 'p', 'o', 's', 'i', 't', 'o', 'r', 'y', '_', 'U', 'R', 'L'], ['a', ' ', 'b']]
+
+def typedKeys : List Str := knownKeys ++ customKeys
+
+def knownKey (n : Nat) : Str := typedKeys.getD n []
 
 def Quals.step (U : UnicodeOps) (q : Quals) : QOp → Res PErr (QOut × Quals)
   | .insert k v =>
